@@ -336,6 +336,9 @@ def cursor_rules(ctx: Ctx, rule: str):
 
 
 def run_extra(ctx: Ctx):
+    # ---------------------------------------------------------------- R07.11 the list schedule places a task after ALL its predecessors, own and inherited (= C04 R04.1)
+    from .c04 import edge_set_rule
+    edge_set_rule(ctx, "R07.11")
     # ---------------------------------------------------------------- R07.10 answers never come from state that outlives the question
     from .common import process_state_rule
     process_state_rule(ctx, "R07.10", [ctx.repo.func("Project.schedule"), ctx.repo.func("ProjectFileParser.parse")],
